@@ -415,6 +415,37 @@ theorem links_kept (pages : List LPage) :
     rw [pageAnchors_seen] at this
     rw [← hn]; simpa using this
 
+private theorem pageErrors_eq (names : List String) (ls : List Outline.Link) :
+    pageErrors names ls = (ls.filter (fun l => l.type == "internal" && !names.contains l.target)).map (·.target) := by
+  induction ls with
+  | nil => rfl
+  | cons l ls ih =>
+    simp only [pageErrors, List.filter_cons]
+    split <;> simp [ih]
+
+/-- "Dropped with an error": exactly the dropped links are reported, one `LOGGER.error` each, in
+document order — every link of every page is either emitted or reported, never both, never neither. -/
+theorem links_dropped_reported (pages : List LPage) :
+    resolveErrors pages = (pages.flatMap fun p => (p.links.filter
+      (fun l => l.type == "internal" && !(destNames pages).contains l.target)).map (·.target)) ∧
+    ∀ p ∈ pages, ∀ l ∈ p.links,
+      (l ∈ pageLinks (destNames pages) p.links) ≠
+        (l.type = "internal" ∧ l.target ∉ destNames pages) := by
+  constructor
+  · unfold resolveErrors
+    simp only [anchorSet_eq]
+    congr 1
+    funext p
+    exact pageErrors_eq _ _
+  · intro p _ l hl
+    rw [pageLinks_eq_filter]
+    by_cases h1 : l.type = "internal"
+    · by_cases h2 : l.target ∈ destNames pages
+      · simp [List.mem_filter, hl, h1, h2]
+      · simp [List.mem_filter, hl, h1, h2]
+    · have : (l.type == "internal") = false := by simpa using h1
+      simp [List.mem_filter, hl, h1, this]
+
 /-- Each anchor name is emitted exactly once over the whole document. -/
 theorem anchors_once (pages : List LPage) : (destNames pages).Nodup := by
   rw [destNames_eq]; exact (pageAnchors_nodup _ []).1
